@@ -183,6 +183,42 @@ Theorem c10_subobs_tensor : forall ls ps so,
     = plets (nth j ps pI).
 Proof. exact subobs_spec. Qed.
 
+(* the sub-observables returned by partition_problem are [sub_observables] of the labels in force, so
+   c10_subobs_tensor applies to the public function *)
+Theorem c10_problem_subobs : forall basis_of relabel dx n ncl ncr c labels obs subs bases so,
+  partition_problem basis_of relabel dx n ncl ncr c labels obs = Ok (subs, bases, Some so) ->
+  exists ps, obs = Some ps /\ ps <> [] /\ length (labels_used n c labels) = n /\
+             (forall p, In p ps -> length (plets p) = n) /\
+             sub_observables (labels_used n c labels) ps = Ok so.
+Proof. exact problem_subobs. Qed.
+
+(* ------------------------------------------------------------------------------------------------ *)
+(* totality: "for any circuit and any valid labelling, separation returns ..." *)
+Theorem c10_separate_total : forall n cregs c ls,
+  no_empty_instr c -> length ls = n -> valid_labelling ls c -> clbits_ok cregs c ->
+  exists subs, separate_circuit n cregs c (Some ls) = Ok (subs, qmap_of ls).
+Proof. exact separate_total. Qed.
+
+Theorem c10_cutting_total : forall basis_of ls c,
+  (forall i, In i c -> ~ uncuttable basis_of ls i) -> exists qc, pcq_loop basis_of ls c = Ok qc.
+Proof. exact pcq_loop_total. Qed.
+
+(* PARTIAL: full statement = "labels/observables/clbit validations pass, no gate is uncuttable, every instruction of c
+   acts on >= 1 qubits all labelled non-None (pre-placed placeholders on exactly two), observables identity on the
+   None qubits  ==>  partition_problem = Ok".  Proved: the same with the validity of the labelling stated for the
+   CUT circuit (after numbering and decompose) instead of being derived from that condition on c. *)
+Theorem c10_problem_total_partial : forall basis_of relabel dx n c labels obs,
+  labels_ok n labels -> obs_sizes_ok n obs -> obs_phases_ok obs ->
+  let ls := labels_used n c labels in
+  length ls = n ->
+  (forall i, In i c -> ~ uncuttable basis_of ls i) ->
+  (forall qc, pcq_loop basis_of ls c = Ok qc ->
+     let cut := dx (fst (number_qpd relabel qc 0)) in
+     no_empty_instr cut /\ valid_labelling ls cut /\ clbits_ok [] cut) ->
+  (forall ps p q, obs = Some ps -> In p ps -> q < n -> nth q ls None = None -> nth q (plets p) 0 = 0) ->
+  exists r, partition_problem basis_of relabel dx n 0 0 c labels obs = Ok r.
+Proof. exact problem_total_partial. Qed.
+
 (* ------------------------------------------------------------------------------------------------ *)
 (* c10_refusals *)
 Theorem c10_separate_refuses : forall n cregs c ls,
@@ -236,6 +272,19 @@ Proof.
   - intros i Hi. repeat (destruct Hi as [<-|Hi]; [reflexivity|]). destruct Hi.
   - intros i q Hi Hq. repeat (destruct Hi as [<-|Hi]; [simpl in Hq; lia|]). destruct Hi.
   - intros i Hi. repeat (destruct Hi as [<-|Hi]; [discriminate|]). destruct Hi.
+Qed.
+
+Example c10_ex_total_hyps :
+  length [Some 0; Some 1; Some 1] = 3 /\ valid_labelling [Some 0; Some 1; Some 1] ex1 /\ clbits_ok [] ex1.
+Proof.
+  split; [reflexivity|]. split.
+  - intros i Hi. simpl in Hi. destruct Hi as [<-|[<-|[<-|[<-|[<-|[]]]]]]; (split; intros NS); try discriminate NS.
+    + exists 0. unfold one_label. simpl. split; [discriminate|intros q [<-|[]]; reflexivity].
+    + simpl. intros q [<-|[<-|[<-|[]]]]; simpl; eauto.
+    + exists 1. unfold one_label. simpl. split; [discriminate|intros q [<-|[<-|[]]]; reflexivity].
+    + exists 0. unfold one_label. simpl. split; [discriminate|intros q [<-|[]]; reflexivity].
+    + exists 1. unfold one_label. simpl. split; [discriminate|intros q [<-|[]]; reflexivity].
+  - intros i k Hi Hk. repeat (destruct Hi as [<-|Hi]; [destruct Hk|]). destruct Hi.
 Qed.
 
 (* an interleaving of the two (tagged) parts: partition B first, then partition A — hypotheses of c10_recompose *)
@@ -331,6 +380,10 @@ Print Assumptions c10_cuts.
 Print Assumptions c10_problem_recompose.
 Print Assumptions c10_subobs_keys.
 Print Assumptions c10_subobs_tensor.
+Print Assumptions c10_problem_subobs.
+Print Assumptions c10_separate_total.
+Print Assumptions c10_cutting_total.
+Print Assumptions c10_problem_total_partial.
 Print Assumptions c10_separate_refuses.
 Print Assumptions c10_problem_refuses.
 Print Assumptions c10_idle_observable.
